@@ -201,7 +201,9 @@ NewConn(e) == [host |-> e.host, a |-> e.a, t0 |-> e.t, cack |-> 0, tCack |-> -1,
                pingW |-> 0,            \* write id carrying the last PINGREQ
                discSeen |-> FALSE,     \* a DISCONNECT was written on this connection
                bpub |-> << >>,         \* C04: broker's QoS>0 PUBLISH not yet acknowledged [pid, qos, msg, state]
-               relOwed |-> {}          \* C04: PUBREL sent to the client and not yet answered
+               relOwed |-> {},         \* C04: PUBREL sent to the client and not yet answered
+               rd |-> 0,               \* bytes the client has read on this connection
+               oweAt |-> -1            \* C13: a CONNACK with Session Present 0 ends at this offset; the report is owed once it is read
               ]
 
 StepCall(o, e) ==
@@ -293,15 +295,16 @@ StepBSend(o, e) ==
     IN IF c \notin DOMAIN o.conn THEN o1 ELSE
        LET cr == o.conn[c] IN
        IF e.type = "CONNACK" THEN
+            \* (the client learns of a lost session only when it has READ the CONNACK: a connection that dies between
+            \* the broker sending Session Present 0 and the client reading it tells the client nothing, and the next
+            \* CONNACK says Session Present 1 for the broker's new, empty session - see Realize below)
             LET ok == e.rc < 128
-                owe == ok /\ e.sp = 0 /\ o.subOk
+                owe == ok /\ e.sp = 0
             IN [o1 EXCEPT !.conn[c] = [cr EXCEPT !.cack = IF ok THEN 1 ELSE 2, !.tCack = e.t, !.sp = e.sp,
                                      !.rm = e.rm, !.mqos = e.mqos, !.ra = e.ra, !.maxpkt = e.maxpkt, !.tam = e.tam,
-                                     !.wa = e.wa, !.sha = e.sha, !.sia = e.sia, !.ska = e.ska],
-                          !.try = [o.try EXCEPT !.ok = ok, !.failT = IF ok THEN @ ELSE e.t],
-                          !.owed = IF owe THEN o.owed + 1 ELSE o.owed,
-                          !.subOk = IF owe THEN FALSE ELSE o.subOk,
-                          !.newSess = IF owe THEN TRUE ELSE o.newSess]
+                                     !.wa = e.wa, !.sha = e.sha, !.sia = e.sia, !.ska = e.ska,
+                                     !.oweAt = IF owe THEN e.end ELSE @],
+                          !.try = [o.try EXCEPT !.ok = ok, !.failT = IF ok THEN @ ELSE e.t]]
        ELSE IF e.type \in {"PUBACK", "PUBCOMP"} \/ (e.type = "PUBREC" /\ e.rc >= 128)
             THEN [o1 EXCEPT !.conn[c].infl = cr.infl \ {e.pid}]
        ELSE IF e.type = "PUBLISH"
@@ -365,7 +368,17 @@ ObsStep(o, e) ==
                                                      !.conn[e.c].lastWriteStart = IF e.w \in DOMAIN o.wr THEN o.wr[e.w].t ELSE e.t,
                                                      !.conn[e.c].pingBase = IF o.conn[e.c].pingW = e.w THEN e.t ELSE @]
                                      ELSE o1
-      [] e.e = "c_read_end" -> IF e.c \in DOMAIN o.conn /\ o.conn[e.c].npkt <= 1 THEN [o EXCEPT !.conn[e.c].tEst = e.t] ELSE o
+      [] e.e = "c_read_end" -> IF e.c \notin DOMAIN o.conn THEN o ELSE
+                               LET o1 == IF o.conn[e.c].npkt <= 1 THEN [o EXCEPT !.conn[e.c].tEst = e.t] ELSE o
+                                   rd == o.conn[e.c].rd + (IF e.ec = "ok" THEN e.nb ELSE 0)
+                                   o2 == [o1 EXCEPT !.conn[e.c].rd = rd]
+                                   \* the CONNACK with Session Present 0 has now been read completely
+                                   owe == o.conn[e.c].oweAt >= 0 /\ rd >= o.conn[e.c].oweAt
+                               IN IF ~owe THEN o2
+                                  ELSE [o2 EXCEPT !.conn[e.c].oweAt = -1,
+                                                  !.owed = IF o.subOk THEN o.owed + 1 ELSE o.owed,
+                                                  !.subOk = FALSE,
+                                                  !.newSess = IF o.subOk THEN TRUE ELSE o.newSess]
       [] e.e = "c_pkt"      -> StepPkt(o, e)
       [] e.e = "b_recv"     -> StepBRecv(o, e)
       [] e.e = "b_send"     -> StepBSend(o, e)
